@@ -285,7 +285,9 @@ func c08(r *rep.Run) {
 					}
 				}
 			}
-			atomic.AddInt64(&histories, 1)
+			if atomic.AddInt64(&histories, 1)%64 == 0 {
+				r.Tick()
+			}
 			if k >= 2 {
 				si := hist[0] % len(c8Sources)
 				if strings.HasPrefix(c8Sources[si], ";") || strings.HasPrefix(iso[hist[0]/len(c8Sources)][si], "error") {
